@@ -331,6 +331,15 @@ func VH_C10D() {
 	}
 	L := []Level{ErrorLevel, InfoLevel, WarnLevel}[vChoose(3)]
 	SetLevel(L)
+	// a level set on the default logger itself (or a replaced default logger) is that logger's
+	// own: only the package-level SetLevel moves the package's default level
+	switch vChoose(3) {
+	case 1:
+		Default().SetLevel([]Level{ErrorLevel, InfoLevel, TraceLevel - 1}[vChoose(3)])
+	case 2:
+		SetDefault(New("other").SetLevel([]Level{ErrorLevel, InfoLevel}[vChoose(2)]))
+	}
+	vAssert(GetLevel() == L, "C10: the package's default level is what the package-level SetLevel set")
 	l := New("n").(*logimp).Entry
 	vAssert(l.Parent() == nil && l.Level() == L && l.ColorMode() && !l.JSONMode(), "C10: package-level New: detached, colored, at the package's current default level")
 	vCover("C10D:done")
